@@ -27,7 +27,9 @@
 (***************************************************************************)
 EXTENDS BBS, TLC
 
-CONSTANT Dev
+CONSTANTS Dev,          \* deviation switches that are ON
+          MechBound     \* calls whose total message count exceeds this bound are decided at the
+                        \* Prov level only (trace validation of large shapes; slices use a large bound)
 
 VARIABLES keys, objs, last
 
@@ -59,8 +61,9 @@ SeqSet(s) == {s[j] : j \in 1 .. Len(s)}
 (*  sig    [kind, key, s, i, hdr, msgs, cm, ups, mut]                       *)
 (*           i = "plain" (sign) | "blind" (blind_sign); cm = commitment     *)
 (*           handle or 0; ups = <<[s, idx, old, new], ..>> update history;  *)
-(*           mut = set of tampered fields: 100 + j = j-th point, j = j-th   *)
-(*           scalar of the encoding (signature: 101 = A, 1 = e)            *)
+(*           mut = set of tampered fields: 100 + j = j-th point replaced by *)
+(*           another point, 200 + j = j-th point replaced by the identity,  *)
+(*           j = j-th scalar of the encoding (signature: 101 = A, 1 = e)    *)
 (*  commit [kind, s, cms, mut, dl]   mut as above (101 = C),                *)
 (*           dl \in {-1, 0, 1} whole scalars removed / appended              *)
 (*  proof  [kind, sig, key, s, i, hdr, ph, msgs, cms, bl, D, mut, dl]       *)
@@ -89,7 +92,7 @@ CommitVal(k, os, h) ==
   LET o  == os[h]
       sc == CommitScalars(k, os, h)
       n  == Len(sc)
-  IN  [C    |-> IF 101 \in o.mut THEN MutLeaf(k, h, 60) ELSE CommitRaw(k, os, h).C,
+  IN  [C    |-> IF 201 \in o.mut THEN 0 ELSE IF 101 \in o.mut THEN MutLeaf(k, h, 60) ELSE CommitRaw(k, os, h).C,
        scap |-> sc[1], mcap |-> SubSeq(sc, 2, n - 1), c |-> sc[n]]
 
 BlindOf(k, os, bl) ==        \* the secret_prover_blind argument of a call
@@ -118,8 +121,11 @@ SigVal(k, os, h) ==
       ske  == Ad(sk, base.e)
       B    == ApplyUps(k, Mu(base.A, ske), o.ups, 1)
   IN  [ok |-> base.ok,
-       A  |-> IF 101 \in o.mut THEN MutLeaf(k, h, 1) ELSE Mu(B, Inv(ske)),
+       A  |-> IF 201 \in o.mut THEN 0 ELSE IF 101 \in o.mut THEN MutLeaf(k, h, 1) ELSE Mu(B, Inv(ske)),
        e  |-> IF 1 \in o.mut THEN MutLeaf(k, h, 2) ELSE base.e]
+
+\* octets_to_signature rejects A = Identity_G1 (F4: the pinned decoder accepts it)
+SigDecodable(os, h) == 201 \notin os[h].mut \/ "F4" \in Dev
 
 \* the message-scalar vector and generator list a prover / verifier uses
 ProverVec(k, os, o) ==
@@ -146,9 +152,9 @@ ProofVal(k, os, h) ==
             ELSE IF o.dl = 1 THEN Append(s1, MutLeaf(k, h, 50))
             ELSE SubSeq(s1, 1, Len(s1) - 1)
       n  == Len(sc)
-  IN  [Abar |-> IF 101 \in o.mut THEN MutLeaf(k, h, 61) ELSE p.Abar,
-       Bbar |-> IF 102 \in o.mut THEN MutLeaf(k, h, 62) ELSE p.Bbar,
-       D    |-> IF 103 \in o.mut THEN MutLeaf(k, h, 63) ELSE p.D,
+  IN  [Abar |-> IF 201 \in o.mut THEN 0 ELSE IF 101 \in o.mut THEN MutLeaf(k, h, 61) ELSE p.Abar,
+       Bbar |-> IF 202 \in o.mut THEN 0 ELSE IF 102 \in o.mut THEN MutLeaf(k, h, 62) ELSE p.Bbar,
+       D    |-> IF 203 \in o.mut THEN 0 ELSE IF 103 \in o.mut THEN MutLeaf(k, h, 63) ELSE p.D,
        ecap |-> sc[1], r1cap |-> sc[2], r3cap |-> sc[3], mcap |-> SubSeq(sc, 4, n - 1), c |-> sc[n]]
 ProofDecodable(os, h) ==
   LET o == os[h]
@@ -197,18 +203,19 @@ AnyProofVal(k, os, h) == IF os[h].kind = "craft" THEN CraftVal(k, os, h) ELSE Pr
 \* ----------------------------------------------------------- provenance
 \* formal sum of message terms <<api number, position, message>> of a signature
 TermsOf(o) ==
-  LET base == {<< << ApiNum(o.s, o.i, FALSE), j - 1, o.msgs[j] >>, 1 >> : j \in 1 .. Len(o.msgs)}
+  LET an   == ApiNum(o.s, o.i, FALSE)
+      base == {<< an, j - 1, o.msgs[j] >> : j \in 1 .. Len(o.msgs)}      \* positions are distinct: coefficient 1
       RECURSIVE Coef(_, _)
       Coef(t, j) == IF j > Len(o.ups) THEN 0
                     ELSE LET u == o.ups[j]
                              n == ApiNum(u.s, "plain", FALSE)
                          IN  (IF t = << n, u.idx, u.new >> THEN 1 ELSE 0)
                              - (IF t = << n, u.idx, u.old >> THEN 1 ELSE 0) + Coef(t, j + 1)
-      cand == {b[1] : b \in base}
-              \cup {<< ApiNum(o.ups[j].s, "plain", FALSE), o.ups[j].idx, o.ups[j].old >> : j \in 1 .. Len(o.ups)}
+      upd  == {<< ApiNum(o.ups[j].s, "plain", FALSE), o.ups[j].idx, o.ups[j].old >> : j \in 1 .. Len(o.ups)}
               \cup {<< ApiNum(o.ups[j].s, "plain", FALSE), o.ups[j].idx, o.ups[j].new >> : j \in 1 .. Len(o.ups)}
-      tot(t) == (IF << t, 1 >> \in base THEN Cardinality({j \in 1 .. Len(o.msgs) : << ApiNum(o.s, o.i, FALSE), j - 1, o.msgs[j] >> = t}) ELSE 0) + Coef(t, 1)
-  IN  {<< t, tot(t) >> : t \in {u \in cand : tot(u) # 0}}
+      tot(t) == (IF t \in base THEN 1 ELSE 0) + Coef(t, 1)
+  IN  IF o.ups = << >> THEN {<< t, 1 >> : t \in base}
+      ELSE {<< t, 1 >> : t \in base \ upd} \cup {<< t, tot(t) >> : t \in {u \in upd : tot(u) # 0}}
 
 TermsFor(s, i, msgs) == {<< << ApiNum(s, i, FALSE), j - 1, msgs[j] >>, 1 >> : j \in 1 .. Len(msgs)}
 
@@ -244,10 +251,11 @@ ProofGoodFor(os, h, key, s, i, hdr, ph, dp, Lsig) ==
      IN  /\ \A j \in 1 .. Len(dp) : dp[j][1] \in o.D
          /\ Len(dp) = Cardinality(o.D)
          /\ \A j \in 1 .. Len(dp) : dp[j][2] = full[dp[j][1] + 1]
-         /\ \A j1, j2 \in 1 .. Len(dp) : j1 < j2 => dp[j1][1] < dp[j2][1]
+         /\ \A j \in 1 .. Len(dp) - 1 : dp[j][1] < dp[j + 1][1]
 
 \* ---------------------------------------------------------------- actions
 Rec(op, args, mech, prov, out) == [op |-> op, args |-> args, res |-> mech, prov |-> prov, out |-> out]
+Small(n) == n <= MechBound
 B2R(b) == IF b THEN "Ok" ELSE "Err"
 AllS(P(_)) == \A k \in Samples : P(k)
 
@@ -263,7 +271,7 @@ Sign(key, s, hdr, msgs) ==
   /\ LET o  == [kind |-> "sig", key |-> key, s |-> s, i |-> "plain", hdr |-> CanonO(hdr),
                 msgs |-> CanonV(msgs), cm |-> 0, ups |-> << >>, mut |-> {}]
          os == Append(objs, o)
-         ok == AllS(LAMBDA k : SigVal(k, os, NObj + 1).ok)
+         ok == Small(Len(CanonV(msgs))) => AllS(LAMBDA k : SigVal(k, os, NObj + 1).ok)
      IN  /\ objs' = IF ok THEN os ELSE objs
          /\ last' = Rec("Sign", [key |-> key, s |-> s, hdr |-> hdr, msgs |-> msgs], B2R(ok), "Ok", NObj + 1)
   /\ UNCHANGED keys
@@ -272,10 +280,12 @@ Sign(key, s, hdr, msgs) ==
 Verify(h, key, s, hdr, msgs) ==
   /\ h \in 1 .. NObj /\ objs[h].kind = "sig" /\ key \in keys
   /\ LET a    == Api(s, "plain")
-         mech == AllS(LAMBDA k : CoreVerify(k, a, PkOf(k, key), SigVal(k, objs, h),
+         mech == /\ SigDecodable(objs, h)
+                 /\ AllS(LAMBDA k : CoreVerify(k, a, PkOf(k, key), SigVal(k, objs, h),
                                             Gens(k, a, Len(CanonV(msgs)) + 1), CanonO(hdr), MsgScs(k, a, CanonV(msgs))))
          prov == SigGoodFor(objs, h, key, s, "plain", CanonO(hdr), CanonV(msgs), << >>, NoBl)
-     IN  last' = Rec("Verify", [sig |-> h, key |-> key, s |-> s, hdr |-> hdr, msgs |-> msgs], B2R(mech), B2R(prov), 0)
+     IN  last' = Rec("Verify", [sig |-> h, key |-> key, s |-> s, hdr |-> hdr, msgs |-> msgs],
+                     IF Small(Len(CanonV(msgs)) + Len(objs[h].msgs)) THEN B2R(mech) ELSE B2R(prov), B2R(prov), 0)
   /\ UNCHANGED << keys, objs >>
 
 \* to_bytes / from_bytes round trip of an artefact: the same artefact comes back
@@ -335,8 +345,9 @@ ProofVerify(h, key, s, hdr, ph, dmsgs, didx) ==
                                           [j \in 1 .. Len(ix) |-> << ix[j], MsgSc(k, a, dm[j]) >>], IdentRule))
          prov == /\ lenok
                  /\ ProofGoodFor(objs, h, key, s, "plain", CanonO(hdr), CanonO(ph), Pairs(CanonO(didx), dm), 0)
+         size == Len(dm) + (IF objs[h].kind = "proof" THEN Len(objs[h].msgs) + Len(objs[h].cms) ELSE 0)
      IN  last' = Rec("ProofVerify", [proof |-> h, key |-> key, s |-> s, hdr |-> hdr, ph |-> ph, dmsgs |-> dmsgs, didx |-> didx],
-                     B2R(mech), B2R(prov), 0)
+                     IF Small(size) THEN B2R(mech) ELSE B2R(prov), B2R(prov), 0)
   /\ UNCHANGED << keys, objs >>
 
 \* the attacker assembles a proof from public data for a statement of its choice
@@ -365,19 +376,21 @@ BlindSignA(key, s, cm, hdr, msgs) ==
          cok  == cm = 0 \/ (CommitDecodable(objs, cm) /\ AllS(LAMBDA k : CommitVerify(k, s, CommitVal(k, objs, cm))))
          mech == cok /\ AllS(LAMBDA k : SigVal(k, os, NObj + 1).ok)
          prov == cm = 0 \/ CommitGood(objs, cm, s)
-     IN  /\ objs' = IF mech THEN os ELSE objs
-         /\ last' = Rec("BlindSign", [key |-> key, s |-> s, cm |-> cm, hdr |-> hdr, msgs |-> msgs], B2R(mech), B2R(prov), NObj + 1)
+         res  == IF Small(Len(CanonV(msgs)) + (IF cm = 0 THEN 0 ELSE Len(objs[cm].cms))) THEN mech ELSE prov
+     IN  /\ objs' = IF res THEN os ELSE objs
+         /\ last' = Rec("BlindSign", [key |-> key, s |-> s, cm |-> cm, hdr |-> hdr, msgs |-> msgs], B2R(res), B2R(prov), NObj + 1)
   /\ UNCHANGED keys
 
 \* BlindSignature::verify_blind_sign(pk, header, messages, committed_messages, secret_prover_blind)
 VerifyBlind(h, key, s, hdr, msgs, cms, bl) ==
   /\ h \in 1 .. NObj /\ objs[h].kind = "sig" /\ key \in keys
   /\ LET a    == Api(s, "blind")
-         mech == AllS(LAMBDA k : BlindVerify(k, s, PkOf(k, key), SigVal(k, objs, h), CanonO(hdr),
+         mech == /\ SigDecodable(objs, h)
+                 /\ AllS(LAMBDA k : BlindVerify(k, s, PkOf(k, key), SigVal(k, objs, h), CanonO(hdr),
                                              MsgScs(k, a, CanonV(msgs)), BlindOf(k, objs, bl), MsgScs(k, a, CanonV(cms))))
          prov == SigGoodFor(objs, h, key, s, "blind", CanonO(hdr), CanonV(msgs), CanonV(cms), bl)
      IN  last' = Rec("VerifyBlind", [sig |-> h, key |-> key, s |-> s, hdr |-> hdr, msgs |-> msgs, cms |-> cms, bl |-> bl],
-                     B2R(mech), B2R(prov), 0)
+                     IF Small(Len(CanonV(msgs)) + Len(CanonV(cms)) + Len(objs[h].msgs)) THEN B2R(mech) ELSE B2R(prov), B2R(prov), 0)
   /\ UNCHANGED << keys, objs >>
 
 \* PoKSignature::blind_proof_gen(pk, signature, header, ph, messages, committed_messages,
@@ -423,12 +436,13 @@ BlindProofVerify(h, key, s, hdr, ph, Lraw, dmsgs, dcmsgs, didx, dcidx) ==
          prov == /\ Len(dm) = Len(ix)
                  /\ Len(CanonV(dmsgs)) = Len(ix1)
                  /\ \A j \in 1 .. Len(ix1) : ix1[j] < L
-                 /\ \A j1, j2 \in 1 .. Len(ix) : j1 < j2 => ix[j1] < ix[j2]
+                 /\ \A j \in 1 .. Len(ix) - 1 : ix[j] < ix[j + 1]
                  /\ ProofGoodFor(objs, h, key, s, "blind", CanonO(hdr), CanonO(ph),
                                  [j \in 1 .. Len(ix) |-> << ix[j], dm[j] >>], L)
      IN  last' = Rec("BlindProofVerify", [proof |-> h, key |-> key, s |-> s, hdr |-> hdr, ph |-> ph, L |-> Lraw,
                                            dmsgs |-> dmsgs, dcmsgs |-> dcmsgs, didx |-> didx, dcidx |-> dcidx],
-                     B2R(mech), B2R(prov), 0)
+                     IF Small(Len(dm) + (IF objs[h].kind = "proof" THEN Len(objs[h].msgs) + Len(objs[h].cms) ELSE 0)) THEN B2R(mech) ELSE B2R(prov),
+                     B2R(prov), 0)
   /\ UNCHANGED << keys, objs >>
 
 Init == /\ keys = {} /\ objs = << >> /\ last = Rec("Init", [x |-> 0], "Ok", "Ok", 0)
